@@ -23,7 +23,7 @@ MCDurs == {D(0, 1, 0, 0, 0, 0, 0, 0, 0, 0), D(1, 0, 0, 0, 0, 0, 0, 0, 0, 0), D(0
 NoDurs == {}
 NoLargest == {}
 NoOpts == {}
-MCRoundOpts == {o \in [u : {"day", "hour", "minute", "second", "millisecond", "microsecond", "nanosecond"}, inc : {1, 2, 3, 12, 15, 30, 500}, mode : Modes] :
+MCRoundOpts == {o \in [u : {"day", "hour", "minute", "second", "millisecond", "microsecond", "nanosecond"}, inc : {1, 2, 3, 12, 15, 30, 500}, mode : Modes \cup {"absent"}] :
                   \/ (o.u = "day" /\ o.inc = 1) \/ (o.u = "hour" /\ o.inc \in {1, 2, 3, 12}) \/ (o.u \in {"minute", "second"} /\ o.inc \in {1, 15, 30})
                   \/ (o.u \in {"millisecond", "microsecond", "nanosecond"} /\ o.inc \in {1, 2, 500})}
 RoundDTs == {DT(d, t) : d \in {Date(2020, 2, 29), Date(2020, 12, 31), Date(275760, 9, 13), Date(-271821, 4, 19)}, t \in {T1, TN, TL, TM, Time(23, 30, 0, 0, 0, 0), Time(23, 59, 59, 999, 999, 500), Time(0, 0, 0, 0, 0, 500)}}
@@ -41,6 +41,6 @@ CaseOf ==
           args |-> [recv |-> DTJ(last.a), other |-> DTJ(last.b), st |-> [largest |-> last.lg]], out |-> last.out]
     [] last.op = "round" ->
          [op |-> "PlainDateTime.round", cls |-> last.o.u \o "/" \o last.o.mode \o "/" \o last.out.kind,
-          args |-> [recv |-> DTJ(last.a), st |-> [smallest |-> last.o.u, inc |-> last.o.inc, mode |-> last.o.mode]], out |-> OutJ(last.out)]
+          args |-> [recv |-> DTJ(last.a), st |-> IF last.o.mode = "absent" THEN [smallest |-> last.o.u, inc |-> last.o.inc] ELSE [smallest |-> last.o.u, inc |-> last.o.inc, mode |-> last.o.mode]], out |-> OutJ(last.out)]
 Emit == last.op = "none" \/ PrintT("CASE " \o ToJson(CaseOf))
 =============================================================================
